@@ -1,6 +1,8 @@
 package main
 
 import (
+	"crypto/sha256"
+	"encoding/hex"
 	"fmt"
 	"go/token"
 	"go/types"
@@ -26,6 +28,16 @@ func (in *Interp) argStr(v Value) string {
 
 func (in *Interp) newScalarInput(name, kind string, w int) *Term {
 	name = in.newInputName(name)
+	if in.cfg.Concrete != nil {
+		var u uint64
+		if iv, ok := in.cfg.Concrete[name]; ok {
+			u, _ = strconv.ParseUint(iv.Value, 10, 64)
+		}
+		if kind == "bool" {
+			return in.tt.Bool(u != 0)
+		}
+		return in.tt.Const(w, u)
+	}
 	var t *Term
 	if kind == "bool" {
 		t = in.tt.Var(smtName(name), BoolSort)
@@ -58,6 +70,20 @@ func init() {
 		name := in.newInputName(in.argStr(a[0]))
 		n := int(in.concreteInt(a[1].(*Term), true))
 		ts := make([]*Term, n)
+		if in.cfg.Concrete != nil {
+			var raw []byte
+			if iv, ok := in.cfg.Concrete[name]; ok {
+				raw, _ = hex.DecodeString(iv.Value)
+			}
+			for i := range ts {
+				var b byte
+				if i < len(raw) {
+					b = raw[i]
+				}
+				ts[i] = in.tt.byteC[b]
+			}
+			return in.bytesToSlice(ts)
+		}
 		for i := range ts {
 			ts[i] = in.tt.Var(fmt.Sprintf("%s_%d", smtName(name), i), BV(8))
 		}
@@ -69,6 +95,20 @@ func init() {
 		if in.hashLen == 0 {
 			in.unsupported("rt.Digest before rt.SetDigestLen")
 		}
+		if in.cfg.Concrete != nil {
+			var raw []byte
+			if iv, ok := in.cfg.Concrete[name]; ok {
+				raw = evalDigestExpr(iv.Value, in.hashLen)
+			} else {
+				s := sha256.Sum256([]byte("fresh:" + name))
+				raw = s[:in.hashLen]
+			}
+			ts := make([]*Term, in.hashLen)
+			for i := range ts {
+				ts[i] = in.tt.byteC[raw[i]]
+			}
+			return in.bytesToSlice(ts)
+		}
 		d := in.tt.Var(smtName(name), DSort)
 		inp := &Input{Name: name, Kind: "digest", T: []*Term{d}}
 		in.digestInputs = append(in.digestInputs, inp)
@@ -77,6 +117,16 @@ func init() {
 	intrinsics[rtPkg+"Choose"] = func(in *Interp, _ *frame, _ *ssa.Function, a []Value) Value {
 		name := in.newInputName(in.argStr(a[0]))
 		n := int(in.concreteInt(a[1].(*Term), true))
+		if in.cfg.Concrete != nil {
+			var u uint64
+			if iv, ok := in.cfg.Concrete[name]; ok {
+				u, _ = strconv.ParseUint(iv.Value, 10, 64)
+			}
+			if int(u) >= n {
+				u = 0
+			}
+			return in.tt.Const(64, u)
+		}
 		k := in.choose(name, n)
 		t := in.tt.Const(64, uint64(k))
 		in.inputs = append(in.inputs, &Input{Name: name, Kind: "choice", T: []*Term{t}, W: 64})
@@ -99,7 +149,7 @@ func init() {
 		return nil
 	}
 	intrinsics[rtPkg+"Symbolic"] = func(in *Interp, _ *frame, _ *ssa.Function, a []Value) Value {
-		return in.tt.True
+		return in.tt.Bool(in.cfg.Concrete == nil)
 	}
 	intrinsics[rtPkg+"Bound"] = func(in *Interp, _ *frame, _ *ssa.Function, a []Value) Value {
 		in.res.Bounds[in.argStr(a[0])] = fmt.Sprint(in.concreteInt(a[1].(*Term), true))
@@ -133,6 +183,51 @@ func init() {
 	}
 	intrinsics[rtPkg+"Try"] = func(in *Interp, caller *frame, _ *ssa.Function, a []Value) Value {
 		return in.tt.Bool(in.try(caller, a[0]))
+	}
+	intrinsics[rtPkg+"NoPanic"] = func(in *Interp, caller *frame, _ *ssa.Function, a []Value) Value {
+		label := in.argStr(a[1])
+		if in.try(caller, a[0]) {
+			pos, _ := in.scratch["lastPanicPos"].(string)
+			msg, _ := in.scratch["lastPanic"].(string)
+			in.syncPC()
+			in.res.addViolation(in, label+"@"+pos, "panic: "+msg, in.modelFor(nil))
+			return in.tt.False
+		}
+		in.res.AssertsConc++
+		return in.tt.True
+	}
+	intrinsics[rtPkg+"Param"] = func(in *Interp, _ *frame, _ *ssa.Function, a []Value) Value {
+		name := in.argStr(a[0])
+		def := in.concreteInt(a[1].(*Term), true)
+		if v, ok := in.cfg.Params[name]; ok {
+			def = int64(v)
+		}
+		in.res.Bounds[name] = fmt.Sprint(def)
+		return in.tt.Const(64, uint64(def))
+	}
+	intrinsics[rtPkg+"Trace"] = func(in *Interp, _ *frame, _ *ssa.Function, a []Value) Value {
+		label := in.argStr(a[0])
+		bs := in.sliceBytes(a[1].(Slice))
+		var sb strings.Builder
+		for _, b := range bs {
+			if b.IsConst() {
+				fmt.Fprintf(&sb, "%02x", b.Val)
+			} else {
+				sb.WriteString("??")
+			}
+		}
+		in.res.Traces = append(in.res.Traces, label+"="+sb.String())
+		return nil
+	}
+	intrinsics[rtPkg+"TraceInt"] = func(in *Interp, _ *frame, _ *ssa.Function, a []Value) Value {
+		label := in.argStr(a[0])
+		t := a[1].(*Term)
+		if t.IsConst() {
+			in.res.Traces = append(in.res.Traces, fmt.Sprintf("%s=%d", label, t.Val))
+		} else {
+			in.res.Traces = append(in.res.Traces, label+"=?")
+		}
+		return nil
 	}
 	intrinsics[rtPkg+"PanicMsg"] = func(in *Interp, _ *frame, _ *ssa.Function, a []Value) Value {
 		if s, ok := in.scratch["lastPanic"].(string); ok {
@@ -431,6 +526,7 @@ func (in *Interp) try(caller *frame, f Value) (panicked bool) {
 			in.depth = depth
 			in.callStack = in.callStack[:stack]
 			in.scratch["lastPanic"] = tp.msg + " at " + tp.pos
+			in.scratch["lastPanicPos"] = tp.pos
 			return
 		}
 		panic(r)
